@@ -113,6 +113,26 @@ def regenerate():
     return changed, d
 translate.regenerate = regenerate          # chained the same way translate.py chains its own wrappers
 
+def src_tie_checks(modules):
+    """for a property module's extra_checks(): build Proofs/SrcEq<M>.vo for every M in `modules` (after regenerate()) and
+    return ([(kind, description, payload)], coverage) with kind 'tie' for every lemma src_<f> that no longer holds /
+    every function the translator refused."""
+    import common
+    files, summary, broken = render_all(modules)
+    out = []
+    for k, v in sorted(broken.items()):
+        out.append(("tie", "source translator refused %s: %s" % (k, v), {"function": k, "message": v}))
+    cov = {"src_modules": list(modules), "src_functions": sum(len(summary.get(m, [])) for m in modules), "src_lemmas_checked": 0}
+    for m in modules:
+        rc, log = common.coq_make("Proofs/SrcEq%s.vo" % m)
+        if rc != 0:
+            where = common.failing_statement(log) or ("Proofs/SrcEq%s.v" % m)
+            out.append(("tie", "the regenerated definition no longer equals the hand-written model: %s" % where,
+                        {"module": m, "where": where, "log": log[-2000:]}))
+        else:
+            cov["src_lemmas_checked"] += len(summary.get(m, []))
+    return out, cov
+
 if __name__ == "__main__":
     files, summary, broken = render_all(sys.argv[1:] or None)
     for name, text in files.items():
